@@ -62,6 +62,7 @@ type vLRes struct {
 	Stage     string `json:"stage"`
 	SelfAfter string `json:"selfAfter"` // the node's own record right after the call returned
 	PeerAlive bool   `json:"peerAlive"` // the node listed a live peer when the call started
+	Leaving   bool   `json:"leaving"`   // the leave flag was set when the call returned
 }
 
 type vLLine struct {
@@ -214,6 +215,7 @@ func (v *vLife) run(what string, role string, item vLItem) vLRes {
 	}
 	res.Role, res.TookMs = role, time.Since(start).Milliseconds()
 	res.PeerAlive = peerAlive
+	res.Leaving = v.N.hasLeft()
 	res.SelfAfter = "absent"
 	v.N.nodeLock.RLock()
 	if st, ok := v.N.nodeMap["node"]; ok {
